@@ -1175,6 +1175,10 @@ func (m *metadataAPI) ResumePartition(streamName string, id int32, recovered boo
 	if err != nil {
 		return nil, err
 	}
+	// The partition is no longer paused, so also clear the protobuf value
+	// (used for snapshotting and reported in metadata). Otherwise restoring a
+	// snapshot would pause the resumed partition again.
+	partition.Paused = false
 	// Update latest pause status change timestamp.
 	partition.pauseTimestamps.update()
 
